@@ -43,11 +43,23 @@ LEVEL_NOTE = ("The exhaustive 2^32 sweep is done by the driver as a SELECTION pr
               "tables (k/4096, every float next to a step, specials; three settings of the other channels) and 400 / 5000 packed vectors.  Every run also "
               "feeds TLC ten of its own records with one field altered and requires their rejection.  At most 12 signatures are reported per (function, "
               "build, clause); further rejected records are counted in the notes.  Trusted: TLC, g++, the driver's "
-              "conversion between values and bit patterns / limbs, the decimal digits of pi")
+              "conversion between values and bit patterns / limbs, the decimal digits of pi.  Boundary audit (type variants, extremes): (6) rcp(double) / rsqrt(double) "
+              "are outside the statement ('for every float x', a 2^-20 bound and a range that are binary32's); rcp_safe(double), clamp<double>, lerp<double>, "
+              "deg2rad<double> (within 2^-50) ARE judged, on binary64 patterns (four 16-bit quarters, 53-bit mantissa on limbs) from an edge grid (zeros, "
+              "denormals, the ends of the binary32 range, DBL_MAX) plus random patterns - not exhaustively; (7) lerp<T> for the 8 integer types is judged "
+              "(exact value of the expression, truncated, within the binary32 rounding bound + 1; stated only when the exact value is a value of T); "
+              "clamp / divRoundUp operands include the neighbourhoods of 2^7, 2^8, 2^15, 2^16, 2^24, 2^31, 2^32 and the ends of every type; sign and madd are "
+              "float-only functions (no integer overloads), deg2rad<integer> and divRoundUp<float> are not exercised (the notions do not apply); (8) every lane "
+              "of the vec_t liftings rcp / rcp_safe (vec2f, vec3f, padded vec3fa, vec4f), madd (vec3f, vec3fa) and lerp<vec_t> is judged by the scalar contract "
+              "on edge and random lanes in both builds (that the lifting is lane-by-lane IDENTICAL to the scalar function is C04's claim, not repeated here); "
+              "(9) madd / lerp are stated only when no exact intermediate value (plus its bound) leaves the finite range - an overflowing evaluation may or may "
+              "not return an infinity; (10) distributions: lower == upper at zeros, denormals and FLT_MAX, ranges one float wide, denormal ranges, ranges whose "
+              "width is FLT_MAX and ranges whose width is not a float any more, streams of 4100 / 65600 draws, a full period of makeRandomColor")
 TECHNIQUE = ("TLA+ specification of IEEE-754 bit patterns and exact dyadic arithmetic on limbs; laws model-checked by TLC on a complete toy format; "
              "exhaustive 2^32 driver sweep as selection, TLC validation of every recorded result; TLC-enumerated operand grids replayed on the real functions")
 SPEC = os.path.join(VERIF, "spec", "math")
 VARIANTS = [("simd", None), ("nosimd", ["RKCOMMON_NO_SIMD=ON"])]
+BIG_STACK = {"JDK_JAVA_OPTIONS": "-Xss64m"}      # read by the java launcher itself: also sizes the main thread, where TLC evaluates ASSUMEs
 SIG_CAP = 12      # distinct signatures reported per (function, variant, failed clause)
 
 FN_OF = {"rcp": "rkmath.h/rcp", "rsqrt": "rkmath.h/rsqrt", "rcp_safe": "rkmath.h/rcp_safe", "sign": "rkmath.h/sign", "clampf": "rkmath.h/clamp",
@@ -128,7 +140,7 @@ def tlc_judge(chk, recs, tag, chunks=4):
         if os.path.exists(outp):
             os.remove(outp)
         r = tla.run_tlc(os.path.join(SPEC, "ScalarKernelsValidate.tla"), os.path.join(SPEC, "ScalarKernelsValidate.cfg"), workers=1, timeout=2400,
-                        env={"C07_OBS": inp, "OUT": outp}, tag="c07-val-%s-%d" % (tag, k), xmx="4g")
+                        env={"C07_OBS": inp, "OUT": outp, "JDK_JAVA_OPTIONS": "-Xss64m"}, tag="c07-val-%s-%d" % (tag, k), xmx="4g")
         if not r.ok or "C07-VALIDATED" not in r.out or not os.path.exists(outp):
             raise tla.InfraError("ScalarKernelsValidate failed: violated=%s error=%s\n%s" % (r.violated, r.error, r.out[-2500:]))
         with open(outp) as f:
@@ -156,6 +168,20 @@ def tlc_judge(chk, recs, tag, chunks=4):
 
 def signature(item, failed, cls):
     rec, k = item["rec"], item["rec"]["k"]
+    if item.get("lift"):      # a lane of the vec_t lifting of the kernel (vec.h)
+        dom = ("Record(binade=%s,sign=%s)" % (cls.get("binade"), cls.get("sign")) if k == "rcp" else
+               "Record(class=%s,sign=%s)" % (cls.get("class"), cls.get("sign")) if k == "rcp_safe" else "Lane(%s)" % item.get("origin", "grid"))
+        return "vec.h/%s(%s,%s)/%s/%s" % (k, item["lift"], item["variant"], dom, failed)
+    if k == "rcp_safed":
+        return "rkmath.h/rcp_safe(double)/Record(class=%s,sign=%s)/%s" % (cls.get("class"), cls.get("sign"), failed)
+    if k == "clampd":
+        return "rkmath.h/clamp(d,%s)/%s" % (cls.get("class"), failed)
+    if k == "deg2radd":
+        return "rkmath.h/deg2rad(double,%s)/%s" % (cls.get("class"), failed)
+    if k == "lerpd":
+        return "rkmath.h/lerp(double,%s)/%s" % (item.get("origin", "grid"), failed)
+    if k == "lerpi":
+        return "rkmath.h/lerp(%s,%s)/%s" % (item["step"]["arg"]["ty"], cls.get("class"), failed)
     if k in ("rcp", "rsqrt"):
         return "%s(%s)/Record(binade=%s,sign=%s)/%s" % (FN_OF[k], item["variant"], cls.get("binade"), cls.get("sign"), failed)
     if k == "rcp_safe":
@@ -176,7 +202,10 @@ def signature(item, failed, cls):
     if k == "pack":
         return "%s/Table(sampled-channels)/%s" % (TABLE_FN[item["step"]["arg"]["fn"]], failed)
     if k == "dist":
-        return "%s/Stream(lower<=upper)/%s" % (DIST_FN[item["step"]["arg"]["kind"]], failed)
+        fn = DIST_FN[item["step"]["arg"]["kind"]]
+        if cls.get("class") == "upper-lower>FLT_MAX":      # one code site whatever the generator: the width is computed as upper - lower
+            fn = fn.split("(")[0]
+        return "%s/Stream(%s)/%s" % (fn, cls.get("class", "lower<=upper"), failed)
     return "rkcommon/%s/%s" % (k, failed)
 
 
@@ -200,6 +229,8 @@ def rebuild_record(item, obs):
         rec["a"], rec["b"] = obs["a"], obs["b"]
     elif k == "dru":
         rec["q"] = obs["q"]
+    elif "lane" in item:
+        rec["r"] = obs["r"][item["lane"]]
     else:
         rec["r"] = obs["r"]
     return rec
@@ -303,6 +334,16 @@ def case_item(variant, c, o, origin="grid"):
         rec = {"k": "sign", "x": arg["x"], "r": o["r"]}
     elif a == "Deg2Rad":
         rec = {"k": "deg2rad", "x": arg["x"], "r": o["r"]}
+    elif a == "LerpI":
+        rec = {"k": "lerpi", "bits": arg["bits"], "sgn": arg["sgn"], "f": arg["f"], "a": arg["a"], "b": arg["b"], "r": o["r"]}
+    elif a == "RcpSafeD":
+        rec = {"k": "rcp_safed", "x": arg["x"], "r": o["r"]}
+    elif a == "ClampD":
+        rec = {"k": "clampd", "x": arg["x"], "lo": arg["lo"], "hi": arg["hi"], "r": o["r"]}
+    elif a == "Deg2RadD":
+        rec = {"k": "deg2radd", "x": arg["x"], "r": o["r"]}
+    elif a == "LerpD":
+        rec = {"k": "lerpd", "f": arg["f"], "a": arg["a"], "b": arg["b"], "r": o["r"]}
     else:
         raise tla.InfraError("no record for action %s" % a)
     return {"variant": variant, "step": step, "rec": rec, "origin": origin}
@@ -333,7 +374,82 @@ def random_cases(rnd, n):
         cs.append({"a": "Dru", "arg": {"ty": ty, "bits": bits, "sgn": sgn, "a": limbs(a), "b": limbs(max(1, b))}})
         v = sorted(rnd.randint(mn, mx) for _ in range(2))
         cs.append({"a": "ClampI", "arg": {"ty": ty, "x": limbs(rnd.choice([rnd.randint(mn, mx), v[0], v[1], mn, mx])), "lo": limbs(v[0]), "hi": limbs(v[1])}})
+        # end points of very different magnitude (denormal .. 2^126), factor at or next to the ends of [0, 1] (no overflow possible)
+        fw = rnd.choice([F(0.0), F(1.0), halves(0x3f7fffff), halves(0x00000001), rand_float(rnd, 100, 126), rand_float(rnd, 100, 126)])
+        fw[0] &= 0x7fff
+        cs.append({"a": "Lerp", "arg": {"f": fw, "a": rand_float(rnd, 0, 252), "b": rand_float(rnd, 0, 252)}})
+        ea = rnd.randint(30, 190)
+        cs.append({"a": "Madd", "arg": {"a": rand_float(rnd, ea, ea), "b": rand_float(rnd, 30, min(190, 378 - ea)), "c": rand_float(rnd, 0, 252)}})
+        # the double instantiations (binary64 patterns as quarters)
+        cs.append({"a": "LerpD", "arg": {"f": rnd.choice([fw, rand_float(rnd, 110, 130)]), "a": rand_double(rnd), "b": rand_double(rnd)}})
+        cs.append({"a": "Deg2RadD", "arg": {"x": rand_double(rnd, 1, 2000)}})
+        cs.append({"a": "RcpSafeD", "arg": {"x": rand_double(rnd, 0, 2046)}})
+        d = sorted([rand_double(rnd, 1000, 1046), rand_double(rnd, 1000, 1046)], key=dkey)
+        cs.append({"a": "ClampD", "arg": {"x": rnd.choice([rand_double(rnd, 1000, 1046), d[0], d[1]]), "lo": d[0], "hi": d[1]}})
+        # lerp<T> for an integer type: anywhere in the type, factor in [0, 1]
+        cs.append({"a": "LerpI", "arg": {"ty": ty, "bits": bits, "sgn": sgn, "f": rnd.choice([F(0.0), F(1.0), F(0.5), fw]),
+                                         "a": limbs(rnd.choice([rnd.randint(mn, mx), rnd.randint(-100 if sgn else 0, 100)])), "b": limbs(rnd.randint(mn, mx))}})
     return cs
+
+
+def rand_double(rnd, emin=900, emax=1150):
+    u = (rnd.getrandbits(1) << 63) | (rnd.randint(emin, emax) << 52) | rnd.getrandbits(52)
+    return [(u >> 48) & 0xffff, (u >> 32) & 0xffff, (u >> 16) & 0xffff, u & 0xffff]
+
+
+def dkey(q):
+    """order of finite binary64 patterns (sorting is data movement: TLC re-decides lower <= upper)"""
+    m = ((q[0] & 0x7fff) << 48) | (q[1] << 32) | (q[2] << 16) | q[3]
+    return -m if q[0] & 0x8000 else m
+
+
+# the vec_t liftings of the kernels: lanes from every class of float, all shapes (vec3fa = padded 3-vector)
+LANE_EDGE = [0x00000000, 0x80000000, 0x00000001, 0x80000001, 0x007fffff, 0x807fffff, 0x00400000, 0x00800000, 0x80800000, 0x3f800000, 0xbf800000,
+             0x3f7fffff, 0x40400000, 0x7e7fffff, 0xfe7fffff, 0x7e800000, 0x7f7fffff, 0xff7fffff, 0x34000000, 0x4b800001]
+SHAPES = {"2": 2, "3": 3, "3a": 3, "4": 4}
+
+
+def lane_steps(rnd, nrand):
+    steps = []
+    pool = [halves(u) for u in LANE_EDGE]
+
+    def lanes(n, i):
+        return [pool[(i * 7 + 3 * k * k + k) % len(pool)] if i < 3 * len(pool) else rand_float(rnd, 0, 254) for k in range(n)]
+
+    for op in ("rcp", "rcp_safe"):
+        for sh, n in sorted(SHAPES.items()):
+            for i in range(3 * len(pool) + nrand):
+                steps.append({"a": "VecLanes", "arg": {"op": op, "shape": sh, "v": lanes(n, i)}})
+    for sh in ("3", "3a"):
+        for i in range(20 + nrand):
+            ea = rnd.randint(30, 190)
+            steps.append({"a": "VecLanes", "arg": {"op": "madd", "shape": sh, "v": [rand_float(rnd, ea, ea) for _ in range(3)],
+                                                   "b": [rand_float(rnd, 30, min(190, 378 - ea)) for _ in range(3)], "c": [rand_float(rnd, 0, 252) for _ in range(3)]}})
+    for sh, n in sorted(SHAPES.items()):
+        for i in range(20 + nrand):
+            f = rnd.choice([F(0.0), F(1.0), F(0.25), halves(0x3f7fffff), rand_float(rnd, 100, 126)])
+            f[0] &= 0x7fff
+            steps.append({"a": "VecLanes", "arg": {"op": "lerp", "shape": sh, "f": f, "v": [rand_float(rnd, 0, 252) for _ in range(n)], "b": [rand_float(rnd, 0, 252) for _ in range(n)]}})
+    return steps
+
+
+def lane_items(variant, steps, obs):
+    items = []
+    for st, o in zip(steps, obs):
+        a = st["arg"]
+        for k in range(SHAPES[a["shape"]]):
+            if a["op"] in ("rcp", "rcp_safe"):
+                rec = {"k": a["op"], "x": a["v"][k], "r": o["r"][k]}
+            elif a["op"] == "madd":
+                rec = {"k": "madd", "a": a["v"][k], "b": a["b"][k], "c": a["c"][k], "r": o["r"][k]}
+            else:
+                rec = {"k": "lerp", "f": a["f"], "a": a["v"][k], "b": a["b"][k], "r": o["r"][k]}
+            items.append({"variant": variant, "step": st, "rec": rec, "lane": k, "lift": "vec" + a["shape"].replace("3a", "3fa") + ("f" if a["shape"] != "3a" else ""),
+                          "origin": "lane"})
+    return items
+
+
+FLT_MAX = 3.4028234663852886e38
 
 
 def F(x):
@@ -342,7 +458,10 @@ def F(x):
 
 
 RANGES = [(0.0, 1.0), (-1.0, 1.0), (0.0, 255.0), (1.0, 2.0), (-1000.0, 1000.0), (0.25, 0.75), (-5.0, -1.0), (0.001, 1000.0), (-1.0, 0.001), (3.0, 3.0),
-          (0.0, 0.0), (-0.0, 0.0), (1.0e-30, 1.0e-20), (-1.0e6, 2.5e-3), (16777216.0, 16777218.0), (0.1, 0.3)]
+          (0.0, 0.0), (-0.0, 0.0), (1.0e-30, 1.0e-20), (-1.0e6, 2.5e-3), (16777216.0, 16777218.0), (0.1, 0.3),
+          # lower == upper at every kind of value; ranges one float wide; denormal ranges; the widest ranges whose width is still a float, and wider
+          (-0.0, -0.0), (FLT_MAX, FLT_MAX), (-FLT_MAX, -FLT_MAX), (1.0e-45, 1.0e-45), (1.0, 1.0000001192092896), (0.0, 1.0e-45), (1.0e-45, 3.0e-45),
+          (-1.0e-40, 1.0e-40), (0.0, FLT_MAX), (-FLT_MAX, 0.0), (-1.7e38, 1.7e38), (-FLT_MAX, FLT_MAX), (-2.0e38, 2.0e38), (-1.0, FLT_MAX)]
 
 
 def dist_steps(rnd, nconf, ndraw):
@@ -359,9 +478,12 @@ def dist_steps(rnd, nconf, ndraw):
         b = {"a": "Dist", "arg": {"kind": kind, "seed": 11 + dseed, "seq": 5 + dseq, "lo": F(0.0), "hi": F(1.0), "n": ndraw}}
         pairs.append((len(steps), len(steps) + 1))
         steps += [a, b]
+    # long streams: more draws than 2^12 (quick) / 2^16 (thorough) from one generator pair
+    for kind in ("pcg_biased", "urd_pcg32"):
+        steps.append({"a": "Dist", "arg": {"kind": kind, "seed": 3, "seq": 4, "lo": F(-1.0), "hi": F(1.0), "n": 4100 if nconf < 1000 else 65600}})
     for i in range(max(4, nconf // 8)):
         steps.append({"a": "Dist", "arg": {"kind": "color", "seed": rnd.choice([0, 1, 4294967295 - 64, rnd.randint(0, 2 ** 32 - 1)]) if i else 0,
-                                           "seq": rnd.choice([1, 1, 7919, 65537]), "lo": F(0.0), "hi": F(1.0), "n": 64 if i else 5000}})
+                                           "seq": rnd.choice([1, 1, 7919, 65537]) if i else 1, "lo": F(0.0), "hi": F(1.0), "n": 64 if i else 10200}})       # 10200 > 7 * 23 * 63: every residue of the three moduli
     return steps, pairs
 
 
@@ -399,7 +521,8 @@ def corruption_controls(items):
 # ---------------------------------------------------------------------------------------------
 # spec -> code: lattice cases with expected values
 # ---------------------------------------------------------------------------------------------
-LAT_FN = {"LatSign": ("rkmath.h/sign", "lattice"), "LatMadd": ("rkmath.h/madd", "float,lattice"), "LatLerp": ("rkmath.h/lerp", None), "LatDru": ("rkmath.h/divRoundUp", None)}
+LAT_FN = {"LatSign": ("rkmath.h/sign", "lattice"), "LatMadd": ("rkmath.h/madd", "float,lattice"), "LatLerp": ("rkmath.h/lerp", None), "LatDru": ("rkmath.h/divRoundUp", None),
+          "LatLerpI": ("rkmath.h/lerp", None)}
 
 
 def compare_lattice(chk, variant, cases, obs):
@@ -417,6 +540,8 @@ def compare_lattice(chk, variant, cases, obs):
             cl = ("float" if c["arg"]["ty"] == "f" else "double") + ",lattice"
         if c["a"] == "LatDru":
             cl = c["cls"]
+        if c["a"] == "LatLerpI":
+            cl = c["arg"]["ty"] + ",lattice"
         field = "least-q" if c["a"] == "LatDru" else "definition"
         sig = "%s(%s)/%s" % (fn, cl, field)
         what = "%s(%s): the specification computes %s, the real function returned %s (%s build)" % (fn, json.dumps(c["arg"]), json.dumps(exp), json.dumps(o)[:200], variant)
@@ -439,10 +564,11 @@ def run(chk, replay=None):
     pool = ThreadPoolExecutor(max_workers=6)
     # builds (both variants), model checking and case generation run side by side
     f_build = {v: pool.submit(build.build, "drv_scalar", "TBB", "", True, 16, defs) for v, defs in VARIANTS}
+    # -Xss: the limb operators recurse once per digit; aligning the largest double with the smallest denormal takes 140 digits
     f_mc = pool.submit(tla.run_tlc, os.path.join(SPEC, "ScalarKernelsMC.tla"), os.path.join(SPEC, "ScalarKernelsMC.cfg" if quick else "ScalarKernelsMC_thorough.cfg"),
-                       8, 3000)
+                       8, 3000, env=BIG_STACK)
     level = "0" if quick else "1"
-    cases = funcheck.gen_cases(chk, SPEC, "ScalarKernelsGen", "ScalarKernelsGen.cfg", "c07-gen", env={"C07_LEVEL": level},
+    cases = funcheck.gen_cases(chk, SPEC, "ScalarKernelsGen", "ScalarKernelsGen.cfg", "c07-gen", env=dict(BIG_STACK, C07_LEVEL=level),
                                what="operand grids of clamp / divRoundUp / sign / lerp / madd / deg2rad; closed form of divRoundUp = the definition's solution")
     exes = {v: f.result() for v, f in f_build.items()}
     chk.log("drivers built: %s" % ", ".join(sorted(exes)))
@@ -458,15 +584,24 @@ def run(chk, replay=None):
     lat = [c for c in cases if "exp" in c]
     law = [c for c in cases if "exp" not in c]
     chk.count_actions([[c] for c in cases + rcases])
-    chk.require_actions(["LatSign", "LatMadd", "LatLerp", "LatDru", "Dru", "ClampI", "ClampF", "Madd", "Lerp", "Sign", "Deg2Rad"])
+    chk.require_actions(["LatSign", "LatMadd", "LatLerp", "LatDru", "LatLerpI", "Dru", "ClampI", "ClampF", "Madd", "Lerp", "Sign", "Deg2Rad",
+                         "LerpI", "RcpSafeD", "ClampD", "Deg2RadD", "LerpD"])
     items = []
     nlat = 0
+    lsteps = lane_steps(rnd, 40 if quick else 600)
     for v, _ in VARIANTS:
-        obs = run_steps(exes[v], lat + law + rcases, "c07-cases-" + v)
+        # the law-judged binary / ternary cases do not depend on RKCOMMON_NO_SIMD: default build only; lattice cases and vector lanes on both
+        todo = lat + (law + rcases if v == "simd" else [])
+        obs = run_steps(exes[v], todo + lsteps, "c07-cases-" + v)
         nlat += compare_lattice(chk, v, lat, obs[:len(lat)])
         chk.cov["evaluations"] += len(lat)
-        items += [case_item(v, c, o) for c, o in zip(law, obs[len(lat):len(lat) + len(law)])]
-        items += [case_item(v, c, o, "random") for c, o in zip(rcases, obs[len(lat) + len(law):])]
+        if v == "simd":
+            items += [case_item(v, c, o) for c, o in zip(law, obs[len(lat):len(lat) + len(law)])]
+            items += [case_item(v, c, o, "random") for c, o in zip(rcases, obs[len(lat) + len(law):len(todo)])]
+        li = lane_items(v, lsteps, obs[len(todo):])
+        items += li
+        chk.cov["action_counts"]["VecLanes(%s)" % v] = len(li)
+    chk.require_actions(["VecLanes(simd)", "VecLanes(nosimd)"])
     chk.log("lattice cases with expected values: %d per variant replayed, %d mismatching" % (len(lat), nlat))
     chk.add_sample({"kind": "lattice case (spec -> code)", "case": lat[len(lat) // 3]})
 
@@ -477,7 +612,7 @@ def run(chk, replay=None):
     if not quick:
         tsteps += [{"a": "Runs", "arg": {"fn": fn, "c": c, "ctx": ctx, "threads": 16}} for fn in ("cvt_v", "srgba8") for c in range(4) if (fn, c) != ("srgba8", 0)]
     tsteps += [{"a": "Pack", "arg": {"fn": fn, "seed": chk.seed, "nvec": 400 if quick else 5000, "den": 4096}} for fn in ("cvt_v", "srgba8")]
-    dsteps, pairs = dist_steps(rnd, 120 if quick else 2400, 48)
+    dsteps, pairs = dist_steps(rnd, 160 if quick else 2400, 48)
     f_tab = pool.submit(run_steps, exes["simd"], tsteps + dsteps, "c07-tables", 6000)
 
     tobs = f_tab.result()
@@ -532,7 +667,7 @@ def run(chk, replay=None):
 
     judge_items(chk, exes, items, "all", chunks=6 if quick else 8, before_report=model_checked)
     pool.shutdown()
-    keys = {json.dumps([it["rec"]["k"], it["variant"] if it["rec"]["k"] in ("rcp", "rsqrt", "rcp_safe") else "", it["step"]], sort_keys=True) for it in items}
+    keys = {json.dumps([it["rec"]["k"], it["variant"] if it["rec"]["k"] in ("rcp", "rsqrt", "rcp_safe") else "", it["step"], it.get("lane")], sort_keys=True) for it in items}
     chk.cov["distinct_nontrivial"] = len(keys) + funcheck.distinct_cases(lat)
     chk.cov["rule"] = ("a case = one evaluation of a real kernel (or one complete table / one stream pair) whose input and output bit patterns TLC judged, or one "
                        "lattice case whose TLC-computed value was compared; distinct = distinct (function, build variant where it matters, operands); all are "
